@@ -10,6 +10,8 @@ PROPERTIES = {
              "bound": "same expressions as under C04, each with/without an extension marker after the element set"},
             {"unit": "b_c04_constraint_parser", "functions": "lexer::constraint::constraints -> element_set_specs, set_operation, union_mark, intersection_mark, value_range, single_value (nom combinators)",
              "bound": "expressions a | a op b | a op b op c over operands {5, -3, 0..10, MIN..7, -1..MAX}, operators spelled {|, UNION, ^, INTERSECTION, EXCEPT}, with/without trailing extension marker (exhaustive, 6510 cases); source text generated and parsed by the real parser"},
+            {"unit": "b_c06_literal_width", "functions": "ASN1Value::link_with_type, arms (Integer, Integer) and (Integer, LinkedNestedValue{Integer}) (validator/linking/mod.rs) -> Integer::int_type",
+             "bound": "range ends and literal from 12 width-boundary points, literal inside the range, with/without extension marker, direct or nested (exhaustive)"},
             {"unit": "b_c06_int_type_serial", "functions": "Integer::int_type (intermediate/types.rs): fold of Constraint::integer_constraints with IntegerType::max_restrictive over serially applied constraints",
              "bound": "1..=2 serial range constraints with ends from {-129,-128,0,10,255,256,65535,70000}, each with/without inner and outer extension marker, non-empty intersection (exhaustive, 14160 cases)"},
         ],
